@@ -124,6 +124,12 @@ def C13(tier, seed):
             ("relabelled", "shifted", "unshifted"), b),
         Run("handle_segmentation", relabel.harness, dict(T=T, P=P, M=2 if q else 3, via_builder=True), relabel.replay,
             ("relabelled", "shortcut"), b.replace("<=%d" % M, "<=%d" % (2 if q else 3))),
+        Run("relabel_segmentation:bounded_labels", relabel.harness,
+            dict(T=2, P=2, M=2, max_label=2, idmax=2, segmax=2) if q else dict(T=2, P=2, M=2, max_label=3, idmax=3,
+                                                                               segmax=3),
+            relabel.replay, ("relabelled",),
+            "<=2 nodes, 2x2 cells, cell labels 0..2 (thorough 0..3): a numpy call outside the modelled "
+            "API is followed by realising the array (case split over cell values) instead of ending inconclusive"),
     ]
     return run_property("C13", tier, runs, explanation=R.EXPL, seed=seed, assumptions=[
         "node ids, seg ids and times are dict keys inside the function: drawn from small stated ranges and "
@@ -154,12 +160,15 @@ def C07(tier, seed):
 
 def C08(tier, seed):
     a = {"all_rp": True, "scale": "sym"}
+    b = {"scale": "aniso"}  # (skimage perimeter supports isotropic spacing only: core features here)
+    W3 = (2, 1, 3)  # three cells per frame: a mask can start away from the border
     if tier == "quick":
-        specs = [("paint", 2, G2, a), ("UserAddNode", 2, G2, {"scale": "sym"}), ("UserDeleteNode", 2, G2, a)]
+        specs = [("paint", 2, W3, b), ("UserAddNode", 2, G2, {"scale": "sym"}), ("UserDeleteNode", 2, G2, a)]
         en = [(k, 2, G2, {"scale": "sym"}) for k in ("ellipse_axis_radii", "circularity", "perimeter")]
     else:
         specs = [("paint", 3, G2, a), ("paint", 2, G3, {"scale": "none", "all_rp": True}), ("paint", 2, G3D, a),
-                 ("UserAddNode", 3, G2, a), ("UserDeleteNode", 3, G3, a)]
+                 ("paint", 2, W3, b), ("paint", 2, (2, 1, 4), {"scale": "aniso"}),
+                 ("UserAddNode", 3, G2, a), ("UserAddNode", 2, W3, b), ("UserDeleteNode", 3, G3, a)]
         en = [(k, 3, G3, {"scale": "sym"}) for k in ("ellipse_axis_radii", "circularity", "perimeter")]
     return _seg("C08", tier, seed, specs, en)
 
@@ -314,6 +323,16 @@ def C10(tier, seed):
              ("UserAddEdge", 3, g3, {"iou": True, "disable": ["iou"]}),
              ("paint", 2, g3, {"iou": True, "disable": ["iou"]})]
     runs += R.seg_runs("C10", tier, specs)
+    from harness import step, step_replay
+    nn = 3 if q else 4
+    for act in ("UserAddEdge", "UserDeleteEdge", "UserDeleteNode", "UserAddNode", "UserSwapPredecessors"):
+        for dis in (["lineage_id"], ["track_id", "lineage_id"]):
+            if dis[0] == "track_id" and act not in ("UserAddEdge", "UserDeleteEdge"):
+                continue
+            runs.append(Run(f"step:{act}:N={nn}:disable={'+'.join(dis)}", step.harness,
+                            dict(N=nn, action=act, props=["C10"], disable=dis, drop_lineage_inv=True),
+                            step_replay.replay, ("accepted",),
+                            f"{nn} node slots, lineage ids arbitrary, the listed features disabled before the edit"))
     en = [(k, 2 if q else 3, g2 if q else g3, {"scale": "sym"}) for k in ("circularity", "perimeter")] + [
         ("iou", 3, g3, {})]
     runs += R.enable_runs("C10", tier, en)
